@@ -190,6 +190,14 @@ func init() {
 				}
 				w.Weather.Events = append(w.Weather.Events, WeatherEvent{Day: w.Start() + Day(r.Range(1, 300)), Kind: "rain", Val: float64(r.Range(150, 400))})
 			}
+			// stratum: two irrigation gifts of the field dated on the same day (e.g. two nitrate concentrations)
+			if len(w.Irr) > 0 && r.Bool(0.2) {
+				w.IrrOn, w.Cfg.AutoIrr = true, false
+				k := r.Intn(len(w.Irr))
+				dup := w.Irr[k]
+				dup.MM = r.PickI([]int{10, 15, 25, 40})
+				w.Irr = append(w.Irr[:k+1], append([]IrrEvent{dup}, w.Irr[k+1:]...)...)
+			}
 			return &Scenario{Prop: "C01", Kind: "single", World: w, Bug: genBug(r.Sub("bug", 0), false)}
 		},
 		Exec: func(sc *Scenario, env *Env) *Result {
